@@ -54,7 +54,92 @@ impl PanicInfo {
     /// signature used for finding identification: file name + message head (line numbers move)
     pub fn sig(&self) -> String {
         let file = self.loc.rsplit('/').next().unwrap_or("").split(':').next().unwrap_or("");
-        let head: String = self.msg.chars().take(60).map(|c| if c.is_whitespace() { '_' } else { c }).collect();
+        // message head, cut at the first quote/backtick (input-dependent text) with digits masked
+        let cut = self.msg.split(|c| c == '`' || c == '"').next().unwrap_or("");
+        let head: String = cut
+            .chars()
+            .take(48)
+            .map(|c| if c.is_whitespace() { '_' } else if c.is_ascii_digit() { '#' } else { c })
+            .collect();
         format!("panic@{}:{}", file, head)
     }
+}
+
+// ---------------------------------------------------------------------------------------
+// PeerCrypto-level helpers ("PC level": real handshake objects, no node)
+
+use smallvec::smallvec;
+use vpncloud::crypto::{Config as CryptoConfig, Crypto, MessageResult, PeerCrypto};
+use vpncloud::messages::NodeInfo;
+use vpncloud::types::NodeId;
+use vpncloud::util::MsgBuffer;
+
+pub const SPACE: usize = 100;
+
+pub fn node_id(n: u8) -> NodeId {
+    let mut id = [0u8; 16];
+    id[0] = n;
+    id[15] = n ^ 0x5a;
+    id[7] = 0xc3;
+    id
+}
+
+/// A distinctive NodeInfo payload for node n.
+pub fn node_info(n: u8) -> NodeInfo {
+    NodeInfo {
+        node_id: node_id(n),
+        peers: smallvec![],
+        claims: smallvec![format!("10.{}.0.0/16", n).parse().unwrap()],
+        peer_timeout: Some(300 + n as u16),
+        addrs: smallvec![format!("[::]:{}", 1000 + n as u16).parse().unwrap()],
+    }
+}
+
+pub fn new_buf() -> Box<MsgBuffer> {
+    Box::new(MsgBuffer::new(SPACE))
+}
+
+#[derive(Debug)]
+pub enum HsOutcome {
+    /// both ends completed; payloads received by (a, b)
+    Done(Box<NodeInfo>, Box<NodeInfo>),
+    /// some step returned an error (step index, error text)
+    Failed(usize, String),
+}
+
+/// In-order, loss-free 3-way handshake a -> b. Does not panic on errors.
+pub fn simple_handshake(a: &mut PeerCrypto<NodeInfo>, b: &mut PeerCrypto<NodeInfo>) -> HsOutcome {
+    let mut buf = new_buf();
+    if let Err(e) = a.initialize(&mut buf) {
+        return HsOutcome::Failed(0, e.to_string());
+    }
+    match b.handle_message(&mut buf) {
+        Ok(MessageResult::Reply) => {}
+        Ok(o) => return HsOutcome::Failed(1, format!("unexpected result {:?}", o)),
+        Err(e) => return HsOutcome::Failed(1, e.to_string()),
+    }
+    let from_b = match a.handle_message(&mut buf) {
+        Ok(MessageResult::InitializedWithReply(p)) => p,
+        Ok(o) => return HsOutcome::Failed(2, format!("unexpected result {:?}", o)),
+        Err(e) => return HsOutcome::Failed(2, e.to_string()),
+    };
+    let from_a = match b.handle_message(&mut buf) {
+        Ok(MessageResult::InitializedWithReply(p)) => {
+            // rotation reply goes back to a
+            match a.handle_message(&mut buf) {
+                Ok(MessageResult::None) => {}
+                Ok(o) => return HsOutcome::Failed(4, format!("unexpected result {:?}", o)),
+                Err(e) => return HsOutcome::Failed(4, e.to_string()),
+            }
+            p
+        }
+        Ok(MessageResult::Initialized(p)) => p,
+        Ok(o) => return HsOutcome::Failed(3, format!("unexpected result {:?}", o)),
+        Err(e) => return HsOutcome::Failed(3, e.to_string()),
+    };
+    HsOutcome::Done(Box::new(from_b), Box::new(from_a))
+}
+
+pub fn crypto_from(cfg: &CryptoConfig, id: NodeId) -> Result<Crypto, String> {
+    Crypto::new(id, cfg).map_err(|e| e.to_string())
 }
